@@ -1,0 +1,23 @@
+//go:build verif
+
+// verif_hooks_pool.go: accessors for the worker-pool checks of the external verification
+// harness (/verif, property C20). Compiled only with -tags verif; adds no behaviour.
+package absnfs
+
+import (
+	"io"
+	"log"
+)
+
+// VerifNewPoolServer builds a bare AbsfsNFS that owns a started worker pool of the given
+// size, wired exactly as New does (NewWorkerPool + Start), without a filesystem.
+// Only ExecuteWithWorker and the pool itself may be used on the result.
+func VerifNewPoolServer(maxWorkers int) *AbsfsNFS {
+	n := &AbsfsNFS{logger: log.New(io.Discard, "", 0)}
+	n.workerPool = NewWorkerPool(maxWorkers, n)
+	n.workerPool.Start()
+	return n
+}
+
+// VerifWorkerPool exposes the server's worker pool.
+func (n *AbsfsNFS) VerifWorkerPool() *WorkerPool { return n.workerPool }
